@@ -138,8 +138,10 @@ theorem c14_no_refresh_one_round (s : Stack) (tid : Tid) (t : TaskSt) (hpc : t.p
     intro gs; induction gs with
     | nil => intro st h; simpa using h
     | cons p tl ih => intro st h; rw [List.foldl_cons]; apply ih; simp [sendSubscribe, h]
-  refine ⟨(groupEntries s.subEntries).foldl (fun s p => s.sendSubscribe s.tm.subscribeTtl p.1 p.2) s, ?_⟩
+  refine ⟨((groupEntries s.subEntries).foldl (fun s p => s.sendSubscribe s.tm.subscribeTtl p.1 p.2) s).markRound tid.2, ?_⟩
   simp only [stepSubscribe, hpc, hc, Bool.false_eq_true, if_false]
-  rw [key _ _ hr]
+  have : (((groupEntries s.subEntries).foldl (fun s p => s.sendSubscribe s.tm.subscribeTtl p.1 p.2) s).markRound tid.2).tm.subscribeRefresh = none :=
+    key _ _ hr
+  rw [this]
 
 end Someip
